@@ -469,7 +469,7 @@ func c09(c *core.Ctx) {
 		for _, cm := range redisCmds(uns, false) {
 			if cm.Name == "hdel" {
 				// topics (full names as sent by the client) are flattened into the command
-				okDel = cm.Spread && ssax.AnyIn(ssax.BackwardOpt(cm.Args[0], func(call *ssa.Call) bool { return true }), func(v ssa.Value) bool { return v == ssa.Value(uns.Params[2]) })
+				okDel = cm.Spread && ssax.AnyIn(ssax.BackwardOpt(cm.Args[0], func(call *ssa.Call) bool { return true }), func(v ssa.Value) bool { return v == ssa.Value(paramOf(uns, 2)) })
 			}
 		}
 		c.Check(okSet, "C09.R3", "sub.Subscribe|field-name", fpos(c, sub), "stored under the full topic name ($share/<group>/<filter>)", "a subscription is stored in redis under a field name that is not its full topic name: UNSUBSCRIBE deletes another field and the subscription comes back after a restart")
@@ -668,7 +668,7 @@ func c09(c *core.Ctx) {
 					// the callback asked to stop
 					if ssax.AnyIn(ssax.Backward(ifi.Cond), func(v ssa.Value) bool {
 						call, ok := v.(*ssa.Call)
-						return ok && call.Call.Value == ssa.Value(f.Params[1])
+						return ok && call.Call.Value == ssa.Value(paramOf(f, 1))
 					}) {
 						continue
 					}
